@@ -72,7 +72,9 @@ PassFails(p, s, e, n) ==
                                      /\ IF Cardinality(F) < MM THEN R \subseteq F ELSE (R # {} => Min(F) <= Min(R)))
     \cup Fail(K \o "_HeapFollows",
               /\ (sch /\ nx # {}) => (InHeap(s, n) /\ HeapPrio(s, n) = Min(nx))
-              /\ (InCache(p, n) /\ ~sch) => ~InHeap(s, n))
+              /\ (InCache(p, n) /\ ~sch) => ~InHeap(s, n)
+              \* a JobConfig that the controller's cache no longer holds (its deletion was delivered, by an event or by a tombstone) is not scheduled
+              /\ (~InCache(p, n) /\ ~InCache(s, n)) => ~InHeap(s, n))
     \cup Fail("C02_KeyRoundTrip", \A g \in Range(fs) : g.keyok)
 
 \* heap right after a start: the first request time is the first due time after the C04 reference
